@@ -1,5 +1,4 @@
-"""xtuml/meta.py -> lean/Gen/MetaDefaults.lean  (C19)
-
+"""xtuml/meta.py -> lean/Gen/MetaDefaults.lean:
 Read with `ast` only (the repository is never imported): `MetaClass.default_value`.
 The method must have exactly this shape (anything else raises = broken tie):
 
